@@ -11,6 +11,8 @@ from pymemcache.exceptions import MemcacheError, MemcacheIllegalInputError
 
 PROPERTY = "C02"
 LEVEL = "exploration"
+# parts repeated in a child interpreter started with -O and with warnings turned into errors (vlib/runner.py, MODES)
+MODE_PARTS = {"OW": ['flag-spellings', 'integers-and-values', 'multi-key', 'serde-and-flags', 'class-keys-len3', 'byte-at-position', 'raw-commands', 'bytes-like-payloads', 'unnormalised-unicode-keys']}
 RULE = ("case = (client kind, configuration {key_prefix, allow_unicode_keys, encoding, default_noreply}, operation "
         "record). Enumerated: every bytes key of length 0-2 over the full byte alphabet (65 793) on get and set "
         "(thorough: every single-key operation, and str keys over code points 0-255); keys of length 3 over 15 class "
